@@ -152,12 +152,48 @@ class El(Ext):
             return PyCallable(add)
         if attr in ("getiterator", "iter"):
             def walk(i, a, k):
-                nodes = self.subtree()
-                if a and a[0] == "*":
-                    nodes = [n for n in nodes if isinstance(n.tag, str)]
-                elif a:
-                    nodes = [n for n in nodes if n.tag in a]
-                return nodes
+                # lxml semantics: a live depth-first walk; the node after the current one is determined
+                # before the current one is handed out (so editing the tree during the walk matters)
+                from sa.sym import LazyGen
+                tags = [t for t in a if t is not None]
+                if "tag" in k and k["tag"] is not None:
+                    tags += list(i.iterate(k["tag"])) if not isinstance(k["tag"], str) else [k["tag"]]
+
+                def match(n):
+                    if not tags:
+                        return True
+                    return any((t == "*" and isinstance(n.tag, str)) or n.tag == t or (t is ETREE_COMMENT and n.tag is ETREE_COMMENT) or (t is ETREE_PI and n.tag is ETREE_PI) for t in tags)
+
+                start = self
+
+                def nxt(node):
+                    if node.children:
+                        return node.children[0]
+                    while node is not None and node is not start:
+                        p = node.parent
+                        if p is None:
+                            return None
+                        idx = next((n for n, c in enumerate(p.children) if c is node), None)
+                        if idx is None:
+                            return None
+                        if idx + 1 < len(p.children):
+                            return p.children[idx + 1]
+                        node = p
+                    return None
+
+                def next_match(node):
+                    n = nxt(node)
+                    while n is not None and not match(n):
+                        n = nxt(n)
+                    return n
+
+                def gen():
+                    cur = start if match(start) else next_match(start)
+                    while cur is not None:
+                        following = next_match(cur)
+                        yield cur
+                        cur = following
+                return LazyGen(gen())
             return PyCallable(walk)
         if attr == "iterchildren":
             return PyCallable(lambda i, a, k: list(self.children))
